@@ -465,6 +465,13 @@ fn c04_bounds(rep: &mut Rep) {
                     let d = || format!("(INTEGER ({te}){}) -> {r:?}", if marker { ", ..." } else { "" });
                     rep.check("C04.range_from_element.marker_after_an_included_type_makes_it_extensible", matches!(&r, Ok((_, _, x, _)) if !marker || *x), d);
                     rep.check("C04.range_from_element.included_type_contributes_the_range_of_its_own_constraints", matches!(&r, Ok((mn, mx, _, _)) if probes_inc.iter().all(|v| !permits(e, *v) || (mn.map_or(true, |m| m <= *v) && mx.map_or(true, |m| *v <= m)))), d);
+                    // the included type is a constrained REFERENCE (`B ::= C (e)`, `a INTEGER (B)`): it may be an INTEGER type, so negative values count
+                    let included = ASN1Type::ElsewhereDeclaredType(DeclarationElsewhere { parent: None, module: None, identifier: "C".into(),
+                        constraints: vec![Constraint::Subtype(ElementSetSpecs { set: ElementOrSetOperation::Element(e.clone()), extensible: false })] });
+                    let inc = SubtypeElements::ContainedSubtype { subtype: included, extensible: marker };
+                    let r = hook_range_from_element(Some(&inc));
+                    let d = || format!("(C ({te}){}) with C a type reference -> {r:?}", if marker { ", ..." } else { "" });
+                    rep.check("C04.range_from_element.included_type_contributes_the_range_of_its_own_constraints", matches!(&r, Ok((mn, mx, _, _)) if probes_inc.iter().all(|v| !permits(e, *v) || (mn.map_or(true, |m| m <= *v) && mx.map_or(true, |m| *v <= m)))), d);
                 }
                 let sz = SubtypeElements::SizeConstraint(Box::new(ElementOrSetOperation::Element(e.clone())));
                 rep.check("C04.range_from_element.size_of_an_element_is_a_size_bound", matches!(hook_range_from_element(Some(&sz)), Ok((mn, mx, x, true)) if mn == lo(e) && mx == hi(e) && x == ext(e)), || format!("SIZE({te})"));
